@@ -141,6 +141,20 @@ Theorem fallback_completes :
    r_out r = ODone false false).
 Proof. exact (fallback_completes_all blob seal open tamper junk). Qed.
 
+(* honest ticket offer resumes (completeness of acceptance, all inputs): a ticket sealed under a current
+   key, within lifetime, suite still acceptable, offered with a consistent ClientHello (suite offered, SRP
+   user / server name / EtM / EMS as in the session) is accepted and the resumed session is exactly the
+   payload's, SRP user name included.  Server without SessionCache (with one: ByBoth may use the cached
+   object).  For SRP sessions this became true with /repo 19b1cb2. *)
+Theorem honest_ticket_offer_resumes_ideal : ideal_aead blob seal open tamper junk ->
+  forall cfg st acc (h : hello blob) now k n p,
+  h_ticket h = Some (seal k n p) -> In k (sv_keys cfg) -> now <= p_created p + sv_life cfg ->
+  sv_usecache cfg = false ->
+  zmem (p_suite p) acc = true -> hello_consistent (sess_of_payload p (h_sid h)) h ->
+  server_try_resume blob open cfg st acc h now = (st, SResume (sess_of_payload p (h_sid h)) (ByTicket k)) /\
+  s_srp (sess_of_payload p (h_sid h)) = p_srp p.
+Proof. exact (honest_ticket_offer_resumes blob seal open tamper junk). Qed.
+
 End C13.
 
 (* the hypotheses are satisfiable: the symbolic AEAD used to run the model *)
@@ -195,19 +209,18 @@ Theorem resume_preserves_tls13_sni_suite_refuted :
     s_ccert s = s_ccert v0 /\ s_ccert s = 1 /\ s_sni s <> s_sni v0 /\ s_suite s <> s_suite v0.
 Proof. exact tls13_sni_suite_refuted_witness. Qed.
 
-(* "an honest client's offer of its own unexpired session under a current key resumes or falls back"
-   REFUTED for SRP sessions offered by ticket (open finding, proposed_fixes/C13-5.diff): the ticket
-   carries no SRP user name, so the server aborts with handshake_failure *)
-Theorem honest_srp_ticket_offer_refuted :
+(* the SRP history that ended in the server's handshake_failure before /repo 19b1cb2 (tickets carried no
+   SRP user name; then `honest_srp_ticket_offer_refuted`) now resumes with the user name preserved *)
+Theorem honest_srp_ticket_offer_resumes :
   let w := srun [wit_cfg 3 [1] 400] wit_srp_history in
   let cp := wit_cp_srp (Some 0) in
-  exists sv h used b p,
+  exists sv h used b p s,
     zget (w_servers w) 0 = Some sv /\
     client_offer sblob cp (offered sblob w cp) (w_now w) (w_fresh w) = Offer sblob h used /\
-    h_ticket h = Some b /\ sopen 1 b = Some p /\ In 1 (sv_keys (sv_cfg sv)) /\
-    w_now w <= p_created p + sv_life (sv_cfg sv) /\ h_srp h = 1 /\
-    r_out (d_log sblob (conn_delta sblob Sealed sopen w cp sv)) = OAbortS handshake_failure.
-Proof. exact srp_ticket_offer_aborts_witness. Qed.
+    h_ticket h = Some b /\ sopen 1 b = Some p /\ h_srp h = 1 /\
+    r_out (d_log sblob (conn_delta sblob Sealed sopen w cp sv)) = ODone true true /\
+    r_sview (d_log sblob (conn_delta sblob Sealed sopen w cp sv)) = Some s /\ s_srp s = 1.
+Proof. exact srp_ticket_offer_resumes_witness. Qed.
 
 (* invalidated_never_resumes REFUTED for the ticket path at the server (inherent to stateless tickets,
    RFC 5077; known finding) *)
